@@ -622,5 +622,5 @@ def describe(case):
 
 def parts(tier):
     q = tier == "quick"
-    return [Part("run", oracle_run, strategy=run_case(), n=1600 if q else 48000, describe=describe),
-            Part("invalid", oracle_invalid, strategy=invalid_case(), n=800 if q else 16000, describe=describe)]
+    return [Part("run", oracle_run, strategy=run_case(), n=1600 if q else 160000, describe=describe),
+            Part("invalid", oracle_invalid, strategy=invalid_case(), n=800 if q else 48000, describe=describe)]
